@@ -2549,8 +2549,11 @@ func (c *Conn) negotiateVersionClient(ctx context.Context) ([]*dtlsflight.Packet
 	// starts once the server has answered: until then the ClientHello is
 	// repeated here, on the same schedule.
 	interval := c.handshakeConfig.InitialRetransmitInterval
+	// One deadline per transmission: a datagram that brings no answer (anybody
+	// can send one) must not push the retransmission back.
+	deadline := time.Now().Add(interval)
 	for {
-		readCtx, cancelRead := context.WithTimeout(ctx, interval)
+		readCtx, cancelRead := context.WithDeadline(ctx, deadline)
 		err := c.readAndBufferNoFSM(readCtx)
 		timedOut := readCtx.Err() != nil && ctx.Err() == nil
 		cancelRead()
@@ -2561,6 +2564,7 @@ func (c *Conn) negotiateVersionClient(ctx context.Context) ([]*dtlsflight.Packet
 			if !c.handshakeConfig.DisableRetransmitBackoff && interval < 60*time.Second {
 				interval = min(2*interval, 60*time.Second)
 			}
+			deadline = time.Now().Add(interval)
 
 			continue
 		}
